@@ -69,7 +69,7 @@ pub fn run(ctx: &Ctx, out: &mut CaseOut) {
                 return;
             }
         };
-        let base: Vec<Option<(Option<Solution<I>>, String, bool)>> = with_program(&l0, || {
+        let base: Vec<Option<(Option<Solution<I>>, String, bool, bool)>> = with_program(&l0, || {
             w.goals
                 .iter()
                 .map(|(g, e, _)| {
@@ -84,7 +84,8 @@ pub fn run(ctx: &Ctx, out: &mut CaseOut) {
                         Outcome::Answer(a) => {
                             let d = disp(&a);
                             let sub = is_slg && slg_subsumed_answers(&mut slg_s);
-                            Some((a, d, sub))
+                            let st = is_slg && slg_stale_table(&mut slg_s, &p.goal);
+                            Some((a, d, sub, st))
                         }
                         _ => None,
                     }
@@ -101,7 +102,7 @@ pub fn run(ctx: &Ctx, out: &mut CaseOut) {
             };
             with_program(&l, || {
                 for (gi, (g, e, _)) in w.goals.iter().enumerate() {
-                    let (ba, bd, bsub) = match &base[gi] {
+                    let (ba, bd, bsub, bstale) = match &base[gi] {
                         Some(x) => x,
                         None => continue,
                     };
@@ -128,7 +129,7 @@ pub fn run(ctx: &Ctx, out: &mut CaseOut) {
                             let is_f12 = solver_name(&choice) == "slg" && ((trivial_unique(&a) && ba.as_ref().map_or(false, |s| s.is_ambig())) || (trivial_unique(ba) && a.as_ref().map_or(false, |s| s.is_ambig())));
                             // F11 loses answers depending on the order in which the cycle is entered; the original program may
                             // have lost it too, so either side being `None` with a stale table observed on this side counts
-                            let f11 = is_slg && stale && (a.is_none() != ba.is_none());
+                            let f11 = is_slg && ((stale && a.is_none() && ba.is_some()) || (*bstale && ba.is_none() && a.is_some()));
                             let sig = if is_f12 {
                                 Some("slg:trivial-answer-green-cut-order")
                             } else if f11 {
